@@ -34,6 +34,29 @@ check('C14', 'property-based testing: differential execution across child interp
       'Only PYTHONHASHSEED is varied between processes. Japanese rule functions are fed only three-part-feature categories (plus *START*/*END*).',
       'DESIGN.md section 7 C14')
 
+PARSER_NOTE = 'parsing.pyx is executed through the pyxlite translator (Cython semantics emulated for the ~25 constructs it uses, re-translated from the working tree on every run) and parsing.h is compiled with g++ behind a generated shim; exact comparison in the dyadic score class, 1e-4 relative tolerance otherwise.'
+check('C01', 'property-based testing with a reference model: Hypothesis-generated sentences/grammars vs an exhaustive chart dynamic program; agenda pops observed through the guarded hook',
+      'Exploration: for head-uniform synthetic tables and the real en/ja rule functions, the first returned parse must score exactly the optimum of an independent O(n^3) chart DP over the beam-admitted tags (placeholder iff infeasible), and the priorities of all popped agenda items (hook) must be non-increasing with a zero outside estimate on the goal.',
+      PARSER_NOTE, 'DESIGN.md section 7 C01')
+check('C02', 'property-based testing with a validity predicate over every returned tree (Hypothesis-generated sentences, synthetic tables of all head modes and real grammars, n-best 1-6)',
+      'Exploration: every tree returned by depccg.parsing.run must have one leaf per token in order carrying that token and an admitted supertag, every node licensed by the grammar callback, an allowed root and no unary root for n>1; anything else must be exactly the placeholder; out-of-range rule indices / missing cache keys / swallowed finalizer exceptions are surfaced by the shim as faults.',
+      PARSER_NOTE, 'DESIGN.md section 7 C02')
+check('C09', 'property-based testing: score recomputed from every returned tree by the statement\'s rule (differential oracle), Hypothesis-generated inputs',
+      'Exploration: the score attached to each returned tree is compared with leaf tag scores + dependency scores along the tree\'s own head flags + root attachment - unary penalties; exact for dyadic scores; all head modes, n-best, real grammars.',
+      PARSER_NOTE, 'DESIGN.md section 7 C09')
+check('C10', 'property-based testing against full enumeration of derivations (reference model), Hypothesis-generated small sentences',
+      'Exploration: for sentences small enough to enumerate every derivation with labels (cap 20000), the k-best list must have min(k, #derivations) pairwise different valid and correctly scored trees in non-increasing order whose scores are the k largest of the enumeration, the first equal to the 1-best answer.',
+      PARSER_NOTE + ' Cases with ties at the pruning boundary or more than 20000 derivations are discarded (counted).', 'DESIGN.md section 7 C10')
+check('C11', 'stateful property-based testing (Hypothesis RuleBasedStateMachine): batch vs alone metamorphic relation over generated call histories, incl. the multiprocessing branch, step budgets from the pop hook, malformed calls',
+      'Exploration of histories: each machine owns a pool of sentences and one grammar; every step parses a drawn permutation/sub-sequence with drawn process count, chunk size, calling form and step budget through the unmodified depccg.parsing.run and compares each position with the memoised alone-result (trees, labels, flags, exact scores); alone results are tied to ground truth (over-length, budget P-1/P from the hook, chart feasibility); malformed calls must raise before any grammar callback; caller lists must stay unchanged.',
+      PARSER_NOTE + ' OS scheduling of the worker processes is not controlled.', 'DESIGN.md section 7 C11')
+check('C12', 'property-based testing: membership oracle of node labels in the grammar results that create the node\'s category (parser output) and print->read-back label recovery (readers)',
+      'Exploration: (a) on grammars where a category pair has several differently labelled results (incl. the same category twice) every parser-built node must carry the label, symbol and head direction of a result that creates its category; (b) grammar-licensed derivations printed in auto/xml/jigg_xml/ptb and read back must carry a deriving rule\'s label on every derivable binary node.',
+      PARSER_NOTE + ' Tree.of_nltk_tree needs NLTK and is not exercised.', 'DESIGN.md section 7 C12')
+check('C16', 'property-based testing with adversarial generators around the numeric threshold and a two-sided reference (must/may admitted sets + chart DP)',
+      'Exploration: tag-score rows are placed at log(beta) +/- {0.01, 0.5, 3} of the best tag and at ranks straddling pruning_size (also flattened rows, filter on/off) on grammars where some sentences are derivable only through an excluded tag; leaves must lie in may_admit, the score between the optima over must_admit and may_admit, and infeasibility over may_admit must give the placeholder.',
+      PARSER_NOTE, 'DESIGN.md section 7 C16')
+
 ALL = ['C%02d' % i for i in range(1, 21)]
 PENDING_REASON = 'check not built yet in this round (planned, see DESIGN.md section 7); not claimed until its command exists and is quiet on the unchanged tree'
 
